@@ -327,12 +327,27 @@ pub struct DayInfo {
 
 /// The documented schedule of day `d`: one kind per minute.
 pub fn eval_day(e: &rl::OpeningHoursExpression, d: NaiveDate, ctx: &MCtx) -> ([K; 1440], DayInfo) {
+    let (out, info, _) = eval_day_full(e, d, ctx, false);
+    (out, info)
+}
+
+/// What a rule painted on a day, as far as it survives: the minutes of its spans (today's and
+/// those continued from yesterday), whether or not a later overlay covers some of them. A later
+/// normal open/unknown rule matching the day, or a fallback taking over, wipes the earlier ones.
+pub struct Contribution {
+    pub rule: usize,
+    pub minutes: Box<[bool; 1440]>,
+}
+
+/// `eval_day` plus, when `want_contributions` is set, the surviving contributions per rule.
+pub fn eval_day_full(e: &rl::OpeningHoursExpression, d: NaiveDate, ctx: &MCtx, want_contributions: bool) -> ([K; 1440], DayInfo, Vec<Contribution>) {
     let mut info = DayInfo::default();
+    let mut contributions: Vec<Contribution> = Vec::new();
     if !in_supported_range(d) {
-        return ([K::C; 1440], info);
+        return ([K::C; 1440], info, contributions);
     }
     let mut st: [Option<K>; 1440] = [None; 1440];
-    for r in &e.rules {
+    for (rule_idx, r) in e.rules.iter().enumerate() {
         let kind = K::of(r.kind);
         let mt = day_match(&r.day_selector, d, ctx);
         let my = d.pred_opt().is_some_and(|p| in_supported_range_or_before(p) && day_match(&r.day_selector, p, ctx));
@@ -370,6 +385,7 @@ pub fn eval_day(e: &rl::OpeningHoursExpression, d: NaiveDate, ctx: &MCtx) -> ([K
             (rl::RuleOperator::Normal, rl::RuleKind::Open | rl::RuleKind::Unknown) => {
                 if mt {
                     st = [None; 1440];
+                    contributions.clear();
                     overlay(&mut st);
                     contributed = true;
                 } else if has {
@@ -387,6 +403,7 @@ pub fn eval_day(e: &rl::OpeningHoursExpression, d: NaiveDate, ctx: &MCtx) -> ([K
                 let covered = st.iter().any(|x| matches!(x, Some(K::O) | Some(K::U)));
                 if !covered {
                     st = [None; 1440];
+                    contributions.clear();
                     if has {
                         overlay(&mut st);
                         contributed = any;
@@ -394,6 +411,9 @@ pub fn eval_day(e: &rl::OpeningHoursExpression, d: NaiveDate, ctx: &MCtx) -> ([K
                     }
                 }
             }
+        }
+        if contributed && want_contributions {
+            contributions.push(Contribution { rule: rule_idx, minutes: Box::new(layer) });
         }
         if contributed {
             info.contributing_rules += 1;
@@ -406,7 +426,7 @@ pub fn eval_day(e: &rl::OpeningHoursExpression, d: NaiveDate, ctx: &MCtx) -> ([K
     for m in 0..1440 {
         out[m] = st[m].unwrap_or(K::C);
     }
-    (out, info)
+    (out, info, contributions)
 }
 
 /// The spill of 1899-12-31 into 1900-01-01: the library evaluates selectors on the previous day
